@@ -147,6 +147,23 @@ def run_scenario(scn, want_events=True, twin_fin=None):
         finally:
             if scn["mode"] in ("pre", "prefile"):
                 model.pre_computed_distance = True
+    def raised(ex):
+        """The code under test raised.  Inputs on which the metric itself is not finite (overflow of a ratio metric in single
+        precision, ...) are outside every property's domain: they are skipped, not judged."""
+        if scn["mode"] in ("metric", "prefile"):
+            fn_ = model0.distance_fn
+            allrows = [Xtr[i] for i in range(len(Xtr))] + [Xu[i] for i in range(len(Xu))]
+            qrows = [Xq_all[j] for j in range(len(Q))] if Q else []
+            try:
+                with np.errstate(all="ignore"):
+                    vals = [fn_(a.copy(), b.copy()) for a in allrows for b in allrows] + [fn_(a.copy(), b.copy()) for a in allrows for b in qrows]
+                if not np.all(np.isfinite(np.array(vals, dtype=float))):
+                    return None, ("skip", "non_finite_distance")
+            except Exception:
+                pass
+        return None, ("exception", "%s: %s" % (type(ex).__name__, str(ex)[:200]))
+
+    model0 = model
     hist = list(H.derive_history(scn))
     if scn.get("reload") and "reload" not in hist:
         hist.append("reload")
@@ -157,7 +174,9 @@ def run_scenario(scn, want_events=True, twin_fin=None):
             else:
                 model.fit(P(Xtr.copy()), Ytr.copy(), P(Xu.copy()), (np.array(I_train) + (int(scn.get("id_offset", 0)) if scn["mode"] not in ("pre", "prefile") else 0)) if passI else None)
         except Exception as ex:
-            return None, ("exception", "%s: %s" % (type(ex).__name__, str(ex)[:200]))
+            return raised(ex)
+    if "stale_matrix" in hist and scn["mode"] == "metric":
+        H.attach_stale_matrix(model, len(Zf))
     CTX.update(on=True, model=model, snaps=[])
     orig = model
     try:
@@ -209,7 +228,7 @@ def run_scenario(scn, want_events=True, twin_fin=None):
                 qres = [int(x) for x in r]
     except Exception as ex:  # exception of the code under test
         CTX["on"] = False
-        return None, ("exception", "%s: %s" % (type(ex).__name__, str(ex)[:200]))
+        return raised(ex)
     # ---- the distances the property talks about, computed by the harness
     rows = list(I_train) + list(U)
     if scn["mode"] == "pre":
